@@ -1618,6 +1618,12 @@ impl<'a> Model<'a> {
                     {
                         CalcResult::Number(0.0)
                     }
+                    // ... and a number that is not finite is stored as #NUM!
+                    CalcResult::Number(value) if !value.is_finite() => CalcResult::Error {
+                        error: Error::NUM,
+                        origin: cell_reference,
+                        message: "".to_string(),
+                    },
                     _ => result,
                 }
             }
